@@ -61,7 +61,7 @@ func genRT(t *rapid.T) RT {
 func GenRT(store string) func(t *rapid.T) *RTCase {
 	return func(t *rapid.T) *RTCase {
 		c := &RTCase{Store: store}
-		n := rapid.IntRange(1, 10).Draw(t, "n")
+		n := rapid.IntRange(1, 14).Draw(t, "n") // past ten: SQLite offsets gain a digit
 		for i := 0; i < n; i++ {
 			c.Msgs = append(c.Msgs, genRT(t))
 		}
